@@ -94,7 +94,7 @@ fn plan(prop: &str) -> Vec<(Sim, usize, usize)> {
         "C09" => vec![(BEnc, 14_000, 700_000), (BDec, 10_000, 500_000), (BOneshot, 6000, 300_000), (AStore, 4000, 300_000)],
         "C10" => vec![(BOneshot, 20_000, 1_000_000), (BEnc, 5000, 200_000), (BDec, 6000, 300_000), (AStore, 4000, 300_000)],
         "C11" => vec![(AStore, 8000, 500_000), (BDec, 12_000, 600_000)],
-        "C12" => vec![(BEnc, 12_000, 600_000), (BDec, 14_000, 700_000), (AStore, 3000, 200_000), (ACorner, 8, 300)],
+        "C12" => vec![(BEnc, 12_000, 600_000), (BDec, 14_000, 700_000), (AStore, 3000, 200_000), (ACorner, 24, 600)],
         "C14" => vec![(DCpu, 3000, 150_000), (AStore, 3000, 200_000)],
         "C17" => vec![(BEnc, 14_000, 700_000), (BDec, 14_000, 700_000)],
         _ => vec![],
